@@ -406,7 +406,9 @@ def build_case(r, kind, tier):
         case["children"] = True
         verbs = [v for v in verbs if v[0] != "unsparsify"] or [["cat"]]
     elif kind == "pipe_early_exit":
-        big = rect_records(r, r.choice([1500, 3000]))
+        # well beyond the capacity of a pipe (64 KiB): the writes must block until the command has exited, and then fail
+        # with EPIPE, however late the (real, uncontrolled) child gets to run
+        big = rect_records(r, r.choice([7000, 10000]))
         files[names[j]] = fmt_text(fmt, big)
         which = r.choice(["tee", "print", "emit", "split"])
         if which == "tee":
